@@ -180,6 +180,10 @@ _FLIP = {ast.NotIn: ast.In, ast.IsNot: ast.Is, ast.NotEq: ast.Eq}
 def positive_form(test, outcome: str) -> Tuple[str, str]:
     """Normalise a (test, outcome) pair: ``a not in b`` taken True is reported as
     (``a in b``, "F"); same for ``is not`` and ``!=``."""
+    if isinstance(test, ast.Compare) and len(test.ops) == 1 and isinstance(test.comparators[0], ast.Constant) \
+            and isinstance(test.comparators[0].value, bool) and isinstance(test.ops[0], (ast.Is, ast.Eq, ast.IsNot, ast.NotEq)):
+        same = isinstance(test.ops[0], (ast.Is, ast.Eq)) == test.comparators[0].value
+        return positive_form(test.left, outcome if same else ("F" if outcome == "T" else "T"))
     if isinstance(test, ast.Compare) and len(test.ops) == 1 and type(test.ops[0]) in _FLIP:
         pos = ast.Compare(left=test.left, ops=[_FLIP[type(test.ops[0])]()], comparators=test.comparators)
         return unparse(pos), ("F" if outcome == "T" else "T")
